@@ -108,6 +108,33 @@ func c16Render(r DocumentRevision) c16View {
 	return v
 }
 
+// c16RenderSafe is c16Render for revisions that may have been copied out of a value that is still being
+// written (Peek during load()/store(), finding D2): string and slice headers copied half-way can have a
+// length but no data, and DocumentRevision.CV points into the live value. Every field is therefore read
+// (and its bytes cloned) under recover; a field that faults is rendered as empty = "not there yet".
+func c16RenderSafe(r DocumentRevision) (v c16View) {
+	try := func(f func()) {
+		defer func() { _ = recover() }()
+		f()
+	}
+	try(func() { v.DocID = strings.Clone(r.DocID) })
+	try(func() { v.RevID = strings.Clone(r.RevID) })
+	try(func() { v.HlvHistory = strings.Clone(r.HlvHistory) })
+	try(func() { v.Body = string(r.BodyBytes) })
+	try(func() { v.Deleted, v.Removed = r.Deleted, r.Removed })
+	try(func() {
+		if r.CV != nil {
+			cv := Version{SourceID: strings.Clone(r.CV.SourceID), Value: r.CV.Value}
+			v.CV = cv.String()
+		}
+	})
+	try(func() { v.History = c16Render(DocumentRevision{History: r.History}).History })
+	try(func() { v.Channels = c16Render(DocumentRevision{Channels: r.Channels}).Channels })
+	try(func() { v.Atts = c16Render(DocumentRevision{Attachments: r.Attachments}).Atts })
+	try(func() { v.Expiry = c16Render(DocumentRevision{Expiry: r.Expiry}).Expiry })
+	return v
+}
+
 // c16Diff names the fields in which two views differ.
 func c16Diff(want, got c16View) []string {
 	var d []string
@@ -680,7 +707,7 @@ func c16Partial(want, got c16View, bad []string) bool {
 // c16CheckRev judges one returned revision against the expectation of its key.
 func (u *c16Universe) checkRev(k c16Key, rev DocumentRevision) (bad []string, want, got c16View) {
 	want = u.expect[k.id()]
-	got = c16Render(rev)
+	got = c16RenderSafe(rev)
 	return c16Diff(want, got), want, got
 }
 
